@@ -36,6 +36,13 @@ CLAIMED = {
         "note": "Trusted: the isolated render of the same code as reference for recovery renders; the Probe classes define what a data event is. One narrow exemption: a fault raised inside the documented `sequence` capability test (detected on the Python stack) may be swallowed.",
         "design": "DESIGN.md §4 C38",
     },
+    "C29": {
+        "level": "exploration",
+        "technique": "deterministic simulation: render histories with deep input snapshots + seeded baton-passing thread schedules (sys.monitoring LINE/INSTRUCTION pre-emption) on one shared environment, differential oracle vs isolated render",
+        "text": "Seeded search over (a) render histories on one environment (3-10 renders through every entry point, small template caches so eviction/reload happen, sync and async) with a deep structural snapshot of data, environment globals and template globals after every render, and (b) thread schedules: 2-4 simulated threads rendering on the same environment and the same data objects, pre-empted at source-line boundaries of jinja2/template code (placement biased to cache, loader, module and runtime code) and instruction boundaries in LRUCache, with hot, warm and cold template caches. Every render must equal its isolated reference and leave inputs unchanged. Sampling, not enumeration; the property text's 8-16 free-running threads are replaced by 2-4 threads with chosen pre-emptions, which reach the same pairwise races reproducibly.",
+        "note": "Trusted: the isolated render of the same code as reference (differential); GIL atomicity below source-line / bytecode granularity; SimLock = threading.Lock semantics; purity of the generated data callables. Known finding KF-C29-1 (state in cached import modules) is tolerated only for generator-tagged programs and only if a fresh Environment per render removes the mismatch.",
+        "design": "DESIGN.md §4 C29, §3.3",
+    },
 }
 
 PENDING_REASON = "check not built yet in this session (planned as a simulation check, DESIGN.md §4); not claimed until it exists"
